@@ -148,20 +148,20 @@ func init() {
 }
 
 type chatRec struct {
-	h       *handled
-	at      time.Time
-	sender  *simClient
-	value   string
-	bcast   bool
-	dest    string
-	noecho  bool
-	id      string
-	kind    string
-	typ     string
-	userAt  string // sender's username at that time
-	accepted bool  // the server forwarded it (sender was a member with the permission)
-	spoof   string
-	forged  bool // claimed a source / username other than the sender's own (as the server knew them)
+	h        *handled
+	at       time.Time
+	sender   *simClient
+	value    string
+	bcast    bool
+	dest     string
+	noecho   bool
+	id       string
+	kind     string
+	typ      string
+	userAt   string // sender's username at that time
+	accepted bool   // the server forwarded it (sender was a member with the permission)
+	spoof    string
+	forged   bool // claimed a source / username other than the sender's own (as the server knew them)
 }
 
 type memEvent struct {
